@@ -38,10 +38,11 @@ theorem selector_compositional (r : Bool) (s : Spec) (v : Item) :
    fun i h => by rw [call]; exact inner_of_mk names (mk_sem names s) r i v h,
    fun o h => mk_sem names s true o v h⟩
 
-/-- OR and AND of the reference semantics are the short-circuit folds of the items' outcomes -/
+/-- OR and AND of the reference semantics are the short-circuit folds of the items' outcomes (a
+`StopIteration` of an item arrives as `RuntimeError`: the items are evaluated inside a generator expression) -/
 theorem sem_list_tuple (r : Bool) (l : List Spec) (v : Item) :
-    sem names r (.list l) v = absorb r (orRes (l.map (fun s => sem names r s v))) ∧
-    sem names r (.tuple l) v = absorb r (andRes (l.map (fun s => sem names r s v))) := by
+    sem names r (.list l) v = absorb r (orRes (l.map (fun s => pep479 (sem names r s v)))) ∧
+    sem names r (.tuple l) v = absorb r (andRes (l.map (fun s => pep479 (sem names r s v)))) := by
   simp [sem, semAny_eq_orRes, semAll_eq_andRes]
 
 /-- construction fails (`LenaTypeError`) exactly when some item, at any depth, is neither a class, a
@@ -253,6 +254,27 @@ example :
     (mkSelector true (.notI (.selI raising false) true)).map (fun o => call [] o v) = some (.ok true) := by
   decide
 
+/-- **"Filter keeps exactly the selected values", for `fill_into`** — a flow filled value by value into an
+element through `Filter.fill_into`: the element receives exactly the selected ones among the values before
+the first one on which the selector raises, in order, after what it held before; that exception (not
+converted: there is no generator) leaves `fill_into` -/
+theorem fill_into_spec (o : Obj) : ∀ (vs el : List Item),
+    fillIntoAll names o el vs =
+      (el ++ (beforeError names o vs).filter (fun v => call names o v = .ok true), firstRaise names o vs)
+  | [], el => by simp [fillIntoAll, beforeError, firstRaise]
+  | v :: rest, el => by
+    have ih := fill_into_spec o rest
+    unfold beforeError at ih ⊢
+    rw [fillIntoAll, fillIntoEl, firstRaise, List.takeWhile_cons]
+    cases h : call names o v with
+    | raise e => simp [Res.isOk]
+    | ok b => cases b <;> simp [Res.isOk, ih, h]
+
+example :
+    (filterInit (.cls .int)).map (fun o =>
+      let r := fillIntoAll [] o [] [⟨.int 3, none⟩, ⟨.str "s", none⟩, ⟨.bool true, none⟩]
+      (r.1.map (·.data), r.2)) = some ([.int 3, .bool true], none) := by decide
+
 /-! ### filters and `RunIf` inside a sequence -/
 
 /-- **two `Filter`s in a `Sequence` are one `Filter` with the AND of the selectors** — including which
@@ -264,14 +286,14 @@ theorem filter_seq_eq_and (a b : Obj) (r : Bool) (vs : List Item) :
   | cons v rest ih =>
     rw [filterSeqRun, filterRun, call, callAll, callAll, callAll]
     cases ha : call names a v with
-    | raise e => rfl
+    | raise e => simp [pep479, pep479e_idem]
     | ok ba =>
       cases ba with
-      | false => simp only [ih]
+      | false => simp [pep479, ih]
       | true =>
         cases hb : call names b v with
-        | raise e => rfl
-        | ok bb => cases bb <;> simp only [ih]
+        | raise e => simp [pep479, pep479e_idem]
+        | ok bb => cases bb <;> simp [pep479, ih]
 
 /-- … and the second filter may as well be run on what the first one yields: an exception of the second
 precedes the one that stopped the first -/
@@ -420,7 +442,8 @@ theorem iet_get_is_longest_prefix (f : Nat) (I E : List Path) (d : Bool) (T : Tr
 /-- the same for `make_include_exclude_tree(includes, excludes)` on tuples of dotted strings: the root `""`
 is in exactly one of them and says what the default is -/
 theorem make_include_exclude_tree_get (names includes excludes : List String) (T : Tree)
-    (h : makeIncludeExcludeTree names includes excludes = .ok T) :
+    (h : makeIncludeExcludeTree names includes excludes = .ok T)
+    (_hk : KeysKnown names (includes ++ excludes)) :
     ∃ I E, splitKeys names includes = some I ∧ splitKeys names excludes = some E ∧
       (includes.contains "" ≠ excludes.contains "") ∧
       (Disjoint I E → ∀ ctx, getL T 0 ctx = keepL (polarity I E (includes.contains "")) 0 ctx) := by
@@ -434,6 +457,14 @@ theorem make_include_exclude_tree_get (names includes excludes : List String) (T
       refine ⟨I, E, hI, hE, ?_, fun hd ctx => iet_get_is_longest_prefix _ I E _ T hd h ctx⟩
       intro e; exact hroot (by rw [e]; simp)
     · cases h
+
+/-- why the hypothesis `KeysKnown`: sub-keys missing from the alphabet all become one index, so the model
+would accept `includes = ("", "x.b")`, `excludes = ("y",)` (the code raises `LenaValueError`: `x` is not within
+an excluded key) — over an alphabet that lacks `x` and `y` the model is not a model of the code -/
+example : (makeIncludeExcludeTree ["b"] ["", "x.b"] ["y"]).tree?.isSome = true ∧
+    (makeIncludeExcludeTree ["b", "x", "y"] ["", "x.b"] ["y"]).isValueError = true := by decide
+
+example : KeysKnown ["a", "b"] (["", "a.b"] ++ ["a"]) := by unfold KeysKnown; decide
 
 /-- `GroupBy("a.b", "")`-like nesting: root and `a.b` included, `a` excluded; keys `a`=0, `b`=1 -/
 example :
@@ -744,7 +775,8 @@ theorem make_accepts_iff (f : Nat) (I E : List Path) (d : Bool) (hf : max (depth
 
 /-- `make_include_exclude_tree(includes, excludes)` raises `LenaValueError` exactly when the root `""` is
 not in exactly one of the two, or some key has an empty sub-key, or the key sets are improperly nested -/
-theorem make_include_exclude_tree_rejects_iff (names includes excludes : List String) :
+theorem make_include_exclude_tree_rejects_iff (names includes excludes : List String)
+    (_hk : KeysKnown names (includes ++ excludes)) :
     makeIncludeExcludeTree names includes excludes = .valueError ↔
       (includes.contains "" = excludes.contains "") ∨
       splitKeys names includes = none ∨ splitKeys names excludes = none ∨
@@ -893,17 +925,40 @@ prefix listed in `group_by` or `merge` is a `group_by` entry. -/
 theorem groupby_share_iff_agree (names : List String) (g m : StrOrTuple) (T : Tree) (I E : List Path)
     (h : groupByInit names g m = .ok T)
     (hI : splitKeys names (gbArgs g m).1 = some I) (hE : splitKeys names (gbArgs g m).2 = some E)
+    (hk : KeysKnown names ((gbArgs g m).1 ++ (gbArgs g m).2))
     (hd : Disjoint I E) (v1 v2 : Item) (w1 : v1.WF names.length) (w2 : v2.WF names.length) :
     groupKey names.length T v1 = groupKey names.length T v2 ↔
       AgreeOn (polarity I E ((gbArgs g m).1.contains "")) (.dict (v1.context names.length))
         (.dict (v2.context names.length)) := by
   rw [groupByInit_eq] at h
-  obtain ⟨I', E', hI', hE', _, hget⟩ := make_include_exclude_tree_get names _ _ T h
+  obtain ⟨I', E', hI', hE', _, hget⟩ := make_include_exclude_tree_get names _ _ T h hk
   rw [hI] at hI'; rw [hE] at hE'
   cases hI'; cases hE'
   unfold groupKey
   rw [hget hd, hget hd]
   exact same_key_iff_agree names.length _ _ _ w1 w2
+
+/-- **the property's GroupBy sentence in one statement about what `compute()` yields**: for
+`GroupBy(group_by, merge)` accepted at construction, `I`, `E` the key paths listed in `group_by`, `merge`, no
+path listed in both, and a flow of values with contexts over the key alphabet: a value of the flow is in the
+same yielded group as another one exactly when their contexts agree on every key path whose longest prefix
+listed in `group_by` or `merge` is a `group_by` entry -/
+theorem groupby_groups_iff_agree (names : List String) (g m : StrOrTuple) (T : Tree) (I E : List Path)
+    (h : groupByInit names g m = .ok T)
+    (hI : splitKeys names (gbArgs g m).1 = some I) (hE : splitKeys names (gbArgs g m).2 = some E)
+    (hk : KeysKnown names ((gbArgs g m).1 ++ (gbArgs g m).2))
+    (hd : Disjoint I E) (vs : List Item) (hw : ∀ v ∈ vs, v.WF names.length) :
+    ∀ grp ∈ gbCompute (vs.foldl (gbFill names.length T) []), ∀ v1 ∈ grp, ∀ v2 ∈ vs,
+      (v2 ∈ grp ↔ AgreeOn (polarity I E ((gbArgs g m).1.contains "")) (.dict (v1.context names.length))
+        (.dict (v2.context names.length))) := by
+  intro grp hg v1 h1 v2 h2
+  have hsub : grp.Sublist vs := ((groupby_partition names.length T vs).2.1 grp hg).2
+  have h1' : v1 ∈ vs := hsub.subset h1
+  rw [(groupby_partition names.length T vs).2.2.2.1 grp hg v1 h1 v2 h2,
+    groupby_share_iff_agree names g m T I E h hI hE hk hd v2 v1 (hw v2 h2) (hw v1 h1')]
+  constructor
+  · intro ha p hp; exact (ha p hp).symm
+  · intro ha p hp; exact (ha p hp).symm
 
 /-- `GroupBy("a.b", "")` over the keys `a`, `b`: accepted; `I = [a.b]`, `E = []`, root in `merge` -/
 example : groupByInit ["a", "b"] (.str "a.b") (.str "") = .ok (.node false [] [(0, .node false [1] [])]) := by rfl
@@ -957,6 +1012,22 @@ example :
     let t : Tree := .node false [0] []          -- GroupBy("a", "")
     (gbFillR 2 t [] ⟨.int 0, some [some (.leaf (.int 1)), some (.leaf (.obj "U"))]⟩).toOption.isSome = true ∧
     (gbFillR 2 t [] ⟨.int 0, some [some (.leaf (.obj "U")), none]⟩).toOption.isSome = false := by decide
+
+/-- `GroupBy.fill` over a whole flow, the caller going on after a `LenaValueError`: the groups are the
+reference partition of the values whose selected part `to_string` can encode -/
+theorem groupby_skip_partition (w : Nat) (t : Tree) : ∀ (vs pre : List Item),
+    gbFillSkip w t (groupsOf (groupKey w t) pre) vs =
+      groupsOf (groupKey w t) (pre ++ vs.filter (fun v => !hasObjL (groupKey w t v)))
+  | [], pre => by simp [gbFillSkip]
+  | v :: vs, pre => by
+    rw [gbFillSkip, gbFillR]
+    by_cases h : hasObjL (groupKey w t v) = true
+    · simp only [h, if_true]
+      rw [groupby_skip_partition w t vs pre]
+      simp [h]
+    · simp only [h, if_false, Bool.false_eq_true]
+      rw [gbFill, groupsAdd_groupsOf, groupby_skip_partition w t vs (pre ++ [v])]
+      simp [h]
 
 /-- `GroupBy.__init__` raises `LenaTypeError` exactly when `group_by` or `merge` is not a string or a
 container (a callable, a number, `None`): `group_by` "is no longer a function" -/
